@@ -3,6 +3,8 @@
    stmt:  N p u | S k item*k | M m (k item*k)*m | H | C        item:  s kind form name | o
           kind t/u/a/n    form  - (none) e (|x) * (any) p:<cps>
    op:    set p u | del p | addo p u | inso p u i | addt p u | inst p u i | delr i
+          rep addr i item | ltx addr k item*k | app addr item | dli addr i | ins idx k item*k | inn m idx k item*k | dst addr
+          addr  t:<r> | m:<r>:<j>     idx  <n> | -
    output: states joined by TAB; first after parse, then after every op:
           outcome # rules # view # forms # reparsed rules *)
 open Namespaces_model
@@ -40,16 +42,34 @@ let rec stmts toks acc =
   | "H" :: r -> stmts r (SCharset :: acc)
   | "C" :: r -> stmts r (SComment :: acc)
   | _ -> failwith "stmt"
+let addr_in t =
+  match String.split_on_char ':' t with
+  | ["t"; r] -> ATop (nat_of_int (int_of_string r))
+  | ["m"; r; j] -> AIn (nat_of_int (int_of_string r), nat_of_int (int_of_string j))
+  | _ -> failwith "addr"
+let idx_in t = if t = "-" then None else Some (nat_of_int (int_of_string t))
+let one_item toks = match take_items 1 toks [] with ([it], r) -> (it, r) | _ -> failwith "one item"
 let rec ops toks acc =
   match toks with
   | [] -> List.rev acc
-  | "set" :: p :: u :: r -> ops r (OSet (str_in p, str_in u) :: acc)
-  | "del" :: p :: r -> ops r (ODel (str_in p) :: acc)
-  | "addo" :: p :: u :: r -> ops r (OAddObj (str_in p, str_in u) :: acc)
-  | "inso" :: p :: u :: i :: r -> ops r (OInsObj (str_in p, str_in u, nat_of_int (int_of_string i)) :: acc)
-  | "addt" :: p :: u :: r -> ops r (OAddText (str_in p, str_in u) :: acc)
-  | "inst" :: p :: u :: i :: r -> ops r (OInsText (str_in p, str_in u, nat_of_int (int_of_string i)) :: acc)
-  | "delr" :: i :: r -> ops r (ODelRule (nat_of_int (int_of_string i)) :: acc)
+  | "set" :: p :: u :: r -> ops r (MN (OSet (str_in p, str_in u)) :: acc)
+  | "del" :: p :: r -> ops r (MN (ODel (str_in p)) :: acc)
+  | "addo" :: p :: u :: r -> ops r (MN (OAddObj (str_in p, str_in u)) :: acc)
+  | "inso" :: p :: u :: i :: r -> ops r (MN (OInsObj (str_in p, str_in u, nat_of_int (int_of_string i))) :: acc)
+  | "addt" :: p :: u :: r -> ops r (MN (OAddText (str_in p, str_in u)) :: acc)
+  | "inst" :: p :: u :: i :: r -> ops r (MN (OInsText (str_in p, str_in u, nat_of_int (int_of_string i))) :: acc)
+  | "delr" :: i :: r -> ops r (MN (ODelRule (nat_of_int (int_of_string i))) :: acc)
+  | "rep" :: a :: i :: r -> let (it, r') = one_item r in
+      ops r' (MS (SReplace (addr_in a, nat_of_int (int_of_string i), it)) :: acc)
+  | "ltx" :: a :: k :: r -> let (its, r') = take_items (int_of_string k) r [] in
+      ops r' (MS (SListText (addr_in a, its)) :: acc)
+  | "app" :: a :: r -> let (it, r') = one_item r in ops r' (MS (SAppend (addr_in a, it)) :: acc)
+  | "dli" :: a :: i :: r -> ops r (MS (SDelItem (addr_in a, nat_of_int (int_of_string i))) :: acc)
+  | "ins" :: i :: k :: r -> let (its, r') = take_items (int_of_string k) r [] in
+      ops r' (MS (SInsStyle (its, idx_in i)) :: acc)
+  | "inn" :: m :: i :: k :: r -> let (its, r') = take_items (int_of_string k) r [] in
+      ops r' (MS (SInsInner (nat_of_int (int_of_string m), its, idx_in i)) :: acc)
+  | "dst" :: a :: r -> ops r (MS (SDelStyle (addr_in a)) :: acc)
   | _ -> failwith "op"
 
 let uri_out = function UNone -> "None" | UAny -> "ANY" | UStr u -> "'" ^ str_out u ^ "'"
@@ -97,7 +117,7 @@ let () =
         let (sh0, oc0) = parse ss in
         let out = ref [state_out oc0 sh0] in
         let cur = ref sh0 in
-        List.iter (fun o -> let (sh', oc) = step o !cur in cur := sh'; out := state_out oc sh' :: !out) os;
+        List.iter (fun o -> let (sh', oc) = mstep o !cur in cur := sh'; out := state_out oc sh' :: !out) os;
         print_endline (String.concat "\t" (List.rev !out))
       with Failure m -> print_endline ("BAD " ^ m))
     done
